@@ -37,7 +37,7 @@ def mono_job(spec, size, kwname, outs):
 
     def body(A, inp):
         r1 = spec.call(inp)
-        r2 = spec.call(inp, kw={kwname: inp['t2']})
+        r2 = A.second(lambda: spec.call(inp, kw={kwname: inp['t2']}))
         for i in outs:
             A.observe(spec.outs[i][0], r1[i])
             A.observe(spec.outs[i][0] + '.looser', r2[i])
@@ -194,7 +194,7 @@ def multipitch_frame_mono(nf):
 
     def body(A, inp):
         r1 = spec.call(inp)
-        r2 = spec.call(inp, kw={'window': inp['t2']})
+        r2 = A.second(lambda: spec.call(inp, kw={'window': inp['t2']}))
         for i in (0, 1, 2, 7, 8, 9):
             A.observe(spec.outs[i][0], r1[i])
             A.require(A.le(r1[i], r2[i]), 'multipitch.%s:non-decreasing-in-window' % spec.outs[i][0])
